@@ -185,9 +185,11 @@ theorem NP_fieldCore {c : Cfg} {name : Str} {tag : Option Str} {isSlice : Bool} 
     simp only at ht
     cases hp : parseTag name tv with
     | error e =>
-      simp only [hp] at ht ⊢
+      simp only [hp, parseTagC, Except.map] at ht ⊢
       cases e <;> simp_all [NP]
-    | ok kp =>
+    | ok kp0 =>
+      simp only [parseTagC, hp, Except.map]
+      generalize canonTag c.canonical c.pinned kp0 = kp
       obtain ⟨key, po⟩ := kp
       simp only
       cases hr : resolveOpts c po key m with
